@@ -104,6 +104,10 @@ struct Case {
     early: bool,
     /// every alias action also (re-)points a key shared by all connections at this peer
     shk: bool,
+    /// the server's outbound queue holds this many messages (queue phase: the reader ends up parked handing over a response)
+    oq: Option<usize>,
+    /// the peer keeps not reading for 4 s (longer than T_DISC) after a token cause was raised: the connection must end regardless
+    stall: bool,
 }
 impl Case {
     /// the cause that ends the connections that end together (all of them, or the survivors)
@@ -143,6 +147,8 @@ fn parse_case(line: &str) -> Option<Case> {
         two: f.get("two").map(|s| s == "1").unwrap_or(false),
         early: f.get("early").map(|s| s == "1").unwrap_or(false),
         shk: f.get("shk").map(|s| s == "1").unwrap_or(false),
+        oq: f.get("oq").and_then(|s| ph(s)).map(|q| q as usize),
+        stall: f.get("stall").map(|s| s == "1").unwrap_or(false),
     })
 }
 
@@ -163,6 +169,7 @@ struct World {
     registry: PeerRegistry,
     phase_hooks: bool,
     shk: bool,
+    tiny_queue: bool,
     flood: u64,
     trigger: AtomicBool,
     release: AtomicBool,
@@ -269,7 +276,16 @@ fn router(w: &Arc<World>) -> Router {
         })
         .with_json_ctx("/flood", move |ctx: &CallContext, _v: Value| -> Result<Value, HErr> {
             if let Some(p) = ctx.peer() {
-                for _ in 0..w3.flood { if p.send_notify("/f", NotifyBody::Raw(vec![0x55; FLOOD_BODY], BodyFormat::RawBinary)).is_err() { break; } }
+                // with a tiny queue (`oq`): keep topping it up until it stays full for 120 ms, i.e. the writer
+                // is stuck in the transport with one message in hand and the queue behind it is full
+                let mut refused = 0;
+                let mut sent = 0;
+                while sent < w3.flood {
+                    if p.send_notify("/f", NotifyBody::Raw(vec![0x55; FLOOD_BODY], BodyFormat::RawBinary)).is_ok() { sent += 1; refused = 0; continue; }
+                    refused += 1;
+                    if !w3.tiny_queue || refused > 60 { break; }
+                    std::thread::sleep(Duration::from_millis(2));
+                }
             }
             w3.flooded.fetch_add(1, SeqCst);
             Ok(json!(1))
@@ -279,6 +295,7 @@ fn router(w: &Arc<World>) -> Router {
 fn build_server(c: &Case, w: &Arc<World>) -> WebSocketServer {
     let limits = WebSocketLimits::default().with_max_incoming_frame_size(Some(INBOUND_LIMIT)).with_max_incoming_message_size(Some(INBOUND_LIMIT));
     let mut srv = WebSocketServer::new(router(w)).with_limits(limits).on_error(|_| {});
+    if let Some(q) = c.oq { srv = srv.with_outbound_capacity(q); }
     let mut idx = 0usize;
     let plain = |srv: WebSocketServer, i: usize, h: &Hact| { let (w, h) = (w.clone(), h.clone()); srv.on_peer_connect(move |peer| connect_hook(&w, i, &h, &peer, None)) };
     let disc = |srv: WebSocketServer, j: usize| { let w = w.clone(); srv.on_peer_disconnect(move |id| disconnect_hook(&w, j, id)) };
@@ -499,7 +516,7 @@ async fn tcp_connect(addr: std::net::SocketAddr, small: bool) -> Result<TcpStrea
     Ok(s)
 }
 
-async fn do_cause(p: &mut Peer, cause: Cause, inline_phase: bool) {
+async fn do_cause(p: &mut Peer, cause: Cause, inline_phase: bool, stall: bool) {
     match cause {
         Cause::Close => p.send(WsMsg::Close(None)).await,
         Cause::Loss => p.ws = None,
@@ -507,7 +524,7 @@ async fn do_cause(p: &mut Peer, cause: Cause, inline_phase: bool) {
         Cause::Big => p.send(WsMsg::Binary(vec![0u8; INBOUND_LIMIT + 40_000])).await,
         Cause::Malformed => p.send(WsMsg::Binary(vec![0xAB; 10])).await,
         Cause::HPanic => if !inline_phase { p.send(WsMsg::Binary(frame(0, 200, b"/panic", b"null"))).await },
-        Cause::Cancel | Cause::Abort => {}
+        Cause::Cancel | Cause::Abort => if stall { tokio::time::sleep(Duration::from_millis(4000)).await; },
     }
     p.drain(Duration::from_secs(4)).await;
 }
@@ -552,7 +569,7 @@ async fn client(i: usize, c: Arc<Case>, addr: std::net::SocketAddr, bars: Arc<Ve
     bars[1].wait().await;
     let mut answered = None;
     if c.stag {
-        if ender { do_cause(&mut p, c.cause, false).await; }
+        if ender { do_cause(&mut p, c.cause, false, false).await; }
         bars[2].wait().await;
         if !ender {
             p.send(WsMsg::Binary(frame(0, 300, b"/k", b"null"))).await;
@@ -560,9 +577,9 @@ async fn client(i: usize, c: Arc<Case>, addr: std::net::SocketAddr, bars: Arc<Ve
         }
         bars[3].wait().await;
         bars[4].wait().await;
-        if !ender { do_cause(&mut p, c.cause2, false).await; }
+        if !ender { do_cause(&mut p, c.cause2, false, false).await; }
     } else if alive || c.phase == Phase::Hooks {
-        do_cause(&mut p, c.cause, c.phase == Phase::Inline).await;
+        do_cause(&mut p, c.cause, c.phase == Phase::Inline, c.stall).await;
     }
     ClientOut { wire: p.wire, err: p.err, answered }
 }
@@ -637,7 +654,7 @@ async fn run_async(c: Case) -> Result<String, String> {
     if c.phase == Phase::Hooks && !c.token_cause() { return Err("badcase:hooks-phase-cause".into()); }
     if c.stag && (c.conns < 2 || c.hs != Hs::Ok || c.panic_reached() || !matches!(c.phase, Phase::Idle | Phase::OffR) || matches!(c.cause, Cause::Cancel | Cause::Abort) || c.reqs == 0) { return Err("badcase:staggered".into()); }
     let w = Arc::new(World {
-        seq: AtomicU64::new(0), recs: Mutex::new(HashMap::new()), registry: PeerRegistry::new(), phase_hooks: c.phase == Phase::Hooks, shk: c.shk, flood: c.flood,
+        seq: AtomicU64::new(0), recs: Mutex::new(HashMap::new()), registry: PeerRegistry::new(), phase_hooks: c.phase == Phase::Hooks, shk: c.shk, tiny_queue: c.oq.is_some(), flood: c.flood,
         trigger: AtomicBool::new(false), release: AtomicBool::new(false), stop: AtomicBool::new(false),
         sleepers: AtomicUsize::new(0), inline_in: AtomicUsize::new(0), parked: AtomicUsize::new(0), flooded: AtomicUsize::new(0),
     });
@@ -710,7 +727,9 @@ async fn run_async(c: Case) -> Result<String, String> {
         // wait (generously) for every disconnect hook of every connection
         let want = expected_recs + fresh_id.is_some() as usize;
         let done = |w: &World| { let g = w.recs.lock().unwrap(); g.len() >= want && g.values().all(|r| r.ndisc() >= ndisc) };
-        wait_until(T_DISC, || done(&w)).await;
+        let in_time = wait_until(T_DISC, || done(&w)).await;
+        // a token cause ends the connection whether or not the peer reads: the hooks have run by now
+        if c.stall && !in_time && note.is_none() { note = Some("disconnect-hooks-not-run-while-the-peer-is-stalled".into()); }
         // the parked handlers get up to 2 s to observe the cancellation
         wait_until(T_SEEN, || w.recs.lock().unwrap().values().all(|r| !r.parked.load(SeqCst) || r.seen.load(SeqCst))).await;
         // let a second (wrong) invocation show up
@@ -879,6 +898,19 @@ fn gen_cases(seed: u64, thorough: bool) -> Vec<String> {
                 let h = gen_hooks(&mut rng);
                 let ctx = rng.chance(2, 3);
                 out.push(format!("{} early=1", case_line(out.len(), mode, "ok", ctx, &h, "cancel", "hooks", 0, 0, conns_of(&mut rng))));
+            }
+        }
+        // queue phase with a tiny outbound queue and a peer that keeps not reading: the reader is parked
+        // handing a response to the full queue when the token cause arrives; the connection still ends
+        for mode in ["d", "s", "a"] {
+            for cause in ["cancel", "abort"] {
+                if !thorough && mode == "d" && cause == "abort" { continue; }
+                let mut h = gen_hooks(&mut rng);
+                // no sleeping hooks; no notifying hooks either (a queue of 1..3 would legitimately refuse their pushes)
+                let keep = |x: &Hact| *x != Hact::Sleep && !matches!(x, Hact::Notify(_));
+                h.pre.retain(keep); h.post.retain(keep); h.xh.retain(keep);
+                let ctx = ctx_of(&mut rng, mode, &h);
+                out.push(format!("{} oq={} stall=1", case_line(out.len(), mode, "ok", ctx, &h, cause, "queue", rng.range(1, 2), rng.range(24, 48), rng.range(1, 3)), hx(rng.range(1, 3))));
             }
         }
         // two servers built alike share one peer registry (the ids they hand out must not collide,
